@@ -225,6 +225,10 @@ func (fr *Frame) pureCall(st *State, fn *ssa.Function, full string, args []Val) 
 		}
 		if ex.ghost == 0 {
 			ex.assume(st, ex.typeFacts(v, t))
+			if (fn.Name() == "Len" || fn.Name() == "Cap" || fn.Name() == "Size") && s == SInt && fn.Signature.Recv() != nil {
+				ex.trusted["library Len/Cap/Size methods return a non-negative value: "+full] = true
+				ex.assume(st, Le(IntLit(0), v))
+			}
 		}
 		return Val{T: v}
 	}
